@@ -1,4 +1,5 @@
 import Orx.KSRun
+import Orx.GenThms
 /-! # C16 Boundary arithmetic: extreme ranges and chunk sizes behave mathematically -/
 namespace Orx.Props.C16
 open Orx Orx.KS
@@ -62,5 +63,39 @@ theorem C16_finding_counter_wrap :
 theorem C16_counter_partial (len : Nat) (as : List Atom) (hns : NoSkip as) (hw : NoWrap len as 0) :
     delivered len as 0 = List.range (pos len (runAtoms len as 0)) :=
   delivered_fresh len as hns hw
+
+
+/-! ## The source itself (translated on every run) -/
+open Orx.RS Orx.Gen Orx.GenThms in
+/-- **`ConIterOfRange::fetch_n` as it is in the source, every range and chunk size**: the chunk's values are
+`start + b .. start + e` for the mathematical position interval of `chunk_range_mathematical`; with `start ≤ stop` they
+lie inside `[start, stop)`; for an empty or inverted range the pull reports the end; nothing overflows. -/
+theorem source_range_chunk (a b n c : Nat) (evs dr) (ha : a < W) (hb : b < W) (hn : n < W) :
+    Range.fetch_n (range a b) n (st c evs dr) =
+      .ok (chunkOfR a (min c (b - a), min (min c (b - a) + n) (b - a))) (st (wrapAdd c n) (evs ++ [faa c n]) dr) := by
+  rw [range_fetch_n a b n c evs dr ha hb, chunk_range_mathematical (b - a) c n (by omega) hn]
+
+open Orx.RS Orx.Gen Orx.GenThms in
+/-- single pulls of a range: position `c` carries the value `start + c`, only while `c < stop - start` -/
+theorem source_range_item (a b c : Nat) (evs dr) (ha : a < W) (hb : b < W) :
+    Range.fetch_one (range a b) (st c evs dr) =
+      .ok (if c < b - a then some ⟨c, a + c⟩ else none) (st (wrapAdd c 1) (evs ++ [faa c 1]) dr) :=
+  range_fetch_one a b c evs dr ha hb
+
+open Orx.RS Orx.Gen Orx.GenThms in
+/-- a one-shot chunk pull of size zero on the source's code: reports the end, counter unchanged -/
+theorem source_chunk_zero (len c : Nat) (evs dr) (hc : c < W) :
+    Slice.fetch_n (slice len) 0 (st c evs dr) = .ok none (st c (evs ++ [faa c 0]) dr) := by
+  rw [slice_fetch_n]
+  have h1 : wrapAdd c 0 = c := by simp [wrapAdd, Nat.mod_eq_of_lt hc]
+  have h3 : (pullRange len c 0).1 = (pullRange len c 0).2 := by
+    simp only [pullRange, satAdd]
+    by_cases h : c < len
+    · have : c + 0 < W := by omega
+      simp only [h, ↓reduceIte, this]; omega
+    · have : len + 0 < W := by omega
+      simp only [h, ↓reduceIte, this]; omega
+  have h2 : chunkOf (pullRange len c 0) = none := by simp [chunkOf, h3]
+  rw [h1, h2]
 
 end Orx.Props.C16
